@@ -3,7 +3,7 @@
    that C09 talks about; the check is C09's decidable clause on the observation. *)
 From Coq Require Import List Bool Arith String.
 Import ListNotations.
-From Lime Require Import Base.Res Hs.Types Hs.Server Hs.Monitor Hs.Pipelined Corr.HsServer Corr.HsChecks.
+From Lime Require Import Base.Res Hs.Types Hs.Server Hs.Monitor Hs.Pipelined Corr.HsServer Corr.HsChecks Corr.PipeChecks.
 Open Scope string_scope.
 Open Scope list_scope.
 
@@ -52,37 +52,16 @@ Fixpoint options_ok (sup_enc sup_comp : list string) (enc comp : string) (calls 
       options_ok sup_enc sup_comp enc' comp' r
   end.
 
-(* what a pipelined run is compared on: the session envelopes the server wrote (with the encryption they were
-   read under) and the callbacks it made (with the encryption in force) *)
-Definition pipe_proj (ob : obs) : list ev :=
-  filter (fun e => match e with Sent s _ => negb (terminal (ss_state s)) | _ => false end) (ob_wire ob) ++
-  filter (fun e => match e with AuthCall _ _ _ _ | RegCall _ _ | EstCb => true | _ => false end) (ob_calls ob).
-Definition pipe_model (c : scase) (glued : list bool) : obs :=
-  let ins := effective (k_conf c) (oracle_of c) [] (combine glued (k_script c)) in
-  project (handle_channel s_repaired (k_conf c) (oracle_of c) ins).
-
 Definition check (c : case) : bool :=
   match c with
   | KScript s => c09_check s
-  | KPipelined s _ clear =>
-      (* what was received in clear before the switch is never acted upon after it *)
-      forallb (fun e => match e with
-                        | AuthCall f _ _ _ | RegCall f _ => negb (existsb (Nat.eqb f) clear)
-                        | _ => true end) (ob_calls (k_obs s)) &&
-      (* and whatever is acted upon is looked at under the confirmed encryption *)
-      match last_confirmed (ob_wire (k_obs s)) with
-      | Some e => forallb (fun ev => match ev with AuthCall _ _ _ enc | RegCall _ enc => String.eqb enc e | _ => true end)
-                          (ob_calls (k_obs s))
-      | None => true
-      end
+  | KPipelined s _ clear => pipe_check s clear
   | KOptions k se sc ie ic calls => mem ie se && mem ic sc && options_ok se sc ie ic calls
   end.
 Definition agrees (c : case) : bool :=
   match c with
   | KScript s => evs_eqb (c09_proj (k_obs s)) (c09_proj (model_obs s))
-  | KPipelined s glued _ =>
-      Nat.eqb (List.length glued) (List.length (k_script s)) &&
-      evs_eqb (pipe_proj (k_obs s)) (pipe_proj (pipe_model s glued))
+  | KPipelined s glued _ => pipe_agrees s glued
   | KOptions k se sc ie ic calls =>
       strs_eqb se (supported_enc k) && strs_eqb sc (supported_comp k) && String.eqb ie (initial_enc k) &&
       String.eqb ic "none" && options_agree k ie ic calls
